@@ -220,13 +220,13 @@ fn is_zero_size_impl<'a>(
             if *length_width == 0 {
                 // zero-sized array
                 if length_range.clone().count() == 1 && *length_range.start() == 0 {
-                    return Ok(true);
+                    true
+                } else {
+                    is_zero_size_impl(elements.as_str(), schema, stack)?
                 }
-                if is_zero_size_impl(elements.as_str(), schema, stack)? {
-                    return Ok(true);
-                }
+            } else {
+                false
             }
-            false
         }
         Ok(Definition::Tuple { elements }) => all(elements.iter(), |key| *key, schema, stack)?,
         Ok(Definition::Enum {
